@@ -95,6 +95,9 @@ def gen_case(rng, tier, index):
              "align_pick": [rng.random() < 0.5 for _ in range(nblocks)],
              "isa": rng.choice(["x64", "arm64"]),
              "in_module": rng.random() < 0.8,
+             # code blocks in a non-default decode mode (with the nop of
+             # that mode handed to the join)
+             "thumb": rng.random() < 0.2,
              # an edit between split and join: one piece grows
              "grow": rng.choice([None, None,
                                  [rng.random(), rng.randrange(1, 6)]])}
@@ -252,6 +255,8 @@ def run_splitjoin(c):
     for off, sz, code in c["blocks"]:
         b = (gtirb.CodeBlock if code else gtirb.DataBlock)(offset=off,
                                                             size=sz)
+        if code and c.get("thumb"):
+            b.decode_mode = gtirb.CodeBlock.DecodeMode.Thumb
         b.byte_interval = bi
         blocks.append(b)
     for off in c["exprs"]:
@@ -265,6 +270,17 @@ def run_splitjoin(c):
     if c["in_module"] and c["tables"] == "default":
         m.aux_data["comments"] = gtirb.AuxData(
             type_name="mapping<Offset,string>", data=table)
+    untracked = None
+    if c["in_module"] and c["tables"] == "none":
+        # "update no tables": what the module's own tables say about this
+        # interval stays as it is
+        untracked = OffsetMapping()
+        for off in c["ann"]:
+            untracked[gtirb.Offset(bi, off)] = f"u{off}"
+        m.aux_data["comments"] = gtirb.AuxData(
+            type_name="mapping<Offset,string>", data=untracked)
+        untracked_before = {(id(o.element_id), o.displacement): v
+                            for o, v in untracked.items()}
     alignment = None
     if c["alignment"] == "table":
         alignment = {}
@@ -298,6 +314,13 @@ def run_splitjoin(c):
             "key": f"split:raises:{type(exc).__name__}",
             "msg": repr(exc)[:300]}], "counters": ctr}
     ctr["split_checks"] += 1
+    if untracked is not None:
+        now_ = {(id(o.element_id), o.displacement): v
+                for o, v in untracked.items()}
+        ctr["untracked_tables_checked"] = 1
+        if now_ != untracked_before:
+            viol.append({"key": "split:table-changed-although-none-was-"
+                                "to-be-updated", "msg": ""})
     track_tables = c["tables"] == "custom" or (
         c["tables"] == "default" and c["in_module"])
     # --- split oracle
@@ -400,6 +423,10 @@ def run_splitjoin(c):
                          "msg": str(k)})
     # --- join
     nop = nop_of(isa)
+    enc = None
+    if c.get("thumb"):
+        nop = b"\x00\xbf"
+        enc = {gtirb.CodeBlock.DecodeMode.Thumb: nop}
     grow = c.get("grow") if snap_init == snap_size else None
     if grow:
         # what an edit does: the bytes of one piece grow (here: behind its
@@ -410,7 +437,8 @@ def run_splitjoin(c):
         return finish_grown(c, bi, parts, blocks, snap_blocks, alignment,
                             tables, nop, viol, ctr)
     try:
-        joined = join_byte_intervals(list(parts), nop, alignment, tables)
+        joined = join_byte_intervals(list(parts), nop_of(isa), alignment,
+                                     tables, enc)
         outcome = "ok"
     except PaddingError:
         outcome = "padding-error"
@@ -420,6 +448,7 @@ def run_splitjoin(c):
         outcome = "exc"
     if outcome == "ok":
         ctr["split_join_roundtrips"] += 1
+        check_padding_modes(c, bi, blocks, viol, ctr)
         if joined is not bi:
             viol.append({"key": "join:destination-not-first", "msg": ""})
         # exact restoration when fully initialised and alignment holds
@@ -489,6 +518,22 @@ def run_splitjoin(c):
             "counters": ctr}
 
 
+def check_padding_modes(c, bi, blocks, viol, ctr):
+    """padding behind code is code of the same decode mode"""
+    known = {id(b) for b in blocks}
+    for pb in bi.blocks:
+        if id(pb) in known or not isinstance(pb, gtirb.CodeBlock):
+            continue
+        ctr["padding_code_blocks_checked"] = ctr.get(
+            "padding_code_blocks_checked", 0) + 1
+        want = gtirb.CodeBlock.DecodeMode.Thumb if c.get("thumb") \
+            else gtirb.CodeBlock.DecodeMode.Default
+        if pb.decode_mode != want:
+            viol.append({"key": "join:padding-block-decode-mode-differs",
+                         "msg": f"{pb.decode_mode} != {want}"})
+            break
+
+
 def finish_grown(c, bi, parts, blocks, snap_blocks, alignment, tables, nop,
                  viol, ctr):
     from gtirb_rewriting.intervalutils import (PaddingError,
@@ -504,8 +549,11 @@ def finish_grown(c, bi, parts, blocks, snap_blocks, alignment, tables, nop,
     order_before = [blocks.index(b) for p in parts
                     for b in sorted(p.blocks, key=lambda b: (b.offset,
                                                              blocks.index(b)))]
+    enc = {gtirb.CodeBlock.DecodeMode.Thumb: nop} if c.get("thumb") \
+        else None
     try:
-        joined = join_byte_intervals(list(parts), nop, alignment, tables)
+        joined = join_byte_intervals(list(parts), nop_of(c["isa"]),
+                                     alignment, tables, enc)
     except PaddingError:
         if len(nop) == 1:
             viol.append({"key": "join:padding-error-with-1-byte-nop",
@@ -518,6 +566,7 @@ def finish_grown(c, bi, parts, blocks, snap_blocks, alignment, tables, nop,
         return {"sig": None, "violations": viol, "counters": ctr}
     ctr["split_join_roundtrips"] += 1
     ctr["joins_after_growth"] = 1
+    check_padding_modes(c, bi, blocks, viol, ctr)
     base = c["address"] or 0
     if joined is not bi:
         viol.append({"key": "join:destination-not-first", "msg": "grown"})
